@@ -22,6 +22,10 @@ NEW_START = """        started = []
 """
 
 CASES = [
+    dict(name='coverage-tracer-single-slot', kind='mutant', rule='R5', key='tracer[coverage]',
+         edits=[dict(file=TR, old="        self.coverage, self.p, previous_trace = self._activations.pop()\n", new="        previous_trace = self._activations.pop()[2]\n")]),
+    dict(name='coverage-tracer-does-not-restore-trace', kind='mutant', rule='R5', key='tracer[coverage]',
+         edits=[dict(file=TR, old="        sys._getframe().f_trace = None\n        sys.settrace(previous_trace)\n", new="")]),
     dict(name='revert-fix-start_patches-all-or-nothing', kind='mutant', rule='R3', key='_start_patches:all-or-nothing',
          edits=[dict(file=SB, old=NEW_START,
                      new="        self._current_patches.append(patches)\n        for a_patch in patches:\n            a_patch.start()\n")]),
